@@ -122,8 +122,38 @@ func loopByID(s *Summary, id int) *LoopSum {
 	return nil
 }
 
-func seqTerm(loop int, elem *Term) *Term {
-	return &Term{Op: "seq", Val: fmt.Sprintf("L%d", loop), Args: []*Term{elem}}
+// seqTerm: the slice built element by element by loop l. Fields[0] carries the canonical trip count (if known)
+// so that len(seq) can be reduced to it; it is not part of the comparison otherwise.
+func seqTerm(l *LoopSum, elem *Term) *Term {
+	t := &Term{Op: "seq", Val: fmt.Sprintf("L%d", l.ID), Args: []*Term{elem}}
+	if n := tripCount(l); n != nil {
+		t.Args = append(t.Args, n)
+	}
+	return t
+}
+
+// tripCount: N when the loop's continue condition is I < N.
+func tripCount(l *LoopSum) *Term {
+	c := l.Cond
+	if c == nil || c.Op != "cmp" || c.Val != "<" || len(c.Args) != 2 {
+		return nil
+	}
+	if s, ok := canonStr(c.Args[0]); ok && s == fmt.Sprintf("(sym:L%d.I)", l.ID) {
+		return c.Args[1]
+	}
+	return nil
+}
+
+// reduceSeqLen: len(seq with known trip count) -> trip count
+func reduceSeqLen(s *Summary) {
+	s.mapTerms(func(t *Term) *Term {
+		if t.Op == "call" && t.Val == "builtin:len" && len(t.Args) == 1 && t.Args[0].Op == "seq" && len(t.Args[0].Args) == 2 {
+			n := *t.Args[0].Args[1]
+			n.Num, n.Int = true, true
+			return &n
+		}
+		return nil
+	})
 }
 
 func canonicaliseSequences(s *Summary) {
@@ -192,13 +222,23 @@ func canonicaliseSequences(s *Summary) {
 				if usedInLoop(s, l, name, j) {
 					continue
 				}
-				repl := seqTerm(l.ID, elem)
 				l.Vars = append(l.Vars[:j:j], l.Vars[j+1:]...)
 				// renumber the later loop-carried values of this loop
 				rename := map[string]string{}
 				for k := j + 1; k <= len(l.Vars); k++ {
 					rename[fmt.Sprintf("L%d.v%d", l.ID, k)] = fmt.Sprintf("L%d.v%d", l.ID, k-1)
 				}
+				elem = substitute(elem, func(t *Term) *Term {
+					if t.Op == "sym" {
+						if n, ok := rename[t.Val]; ok {
+							c := *t
+							c.Val = n
+							return &c
+						}
+					}
+					return nil
+				}, map[*Term]*Term{})
+				repl := seqTerm(l, elem)
 				s.mapTerms(func(t *Term) *Term {
 					if t.Op == "sym" {
 						if t.Val == name {
@@ -296,7 +336,7 @@ func canonicaliseSequences(s *Summary) {
 			if other || usesObject(elem, mk, loc) {
 				continue
 			}
-			repl := seqTerm(l.ID, elem)
+			repl := seqTerm(l, elem)
 			s.Effects = append(s.Effects[:i:i], s.Effects[i+1:]...)
 			s.mapTerms(func(t *Term) *Term {
 				if mk != "" && t.Op == "call" && t.Val == mk {
@@ -310,7 +350,11 @@ func canonicaliseSequences(s *Summary) {
 			changed = true
 			break
 		}
+		if changed {
+			reduceSeqLen(s)
+		}
 	}
+	reduceSeqLen(s)
 }
 
 func withInt(t *Term) *Term {
